@@ -15,7 +15,7 @@ CLAIMS = {
              "affine combination of both buffers; L-BFGS fun/jac are value/gradient of "
              "the same terms. Does not decide that score <= tol implies "
              "eps-stationarity numerically."
-             " Every definition of the returned stopping value inside the budget loop is one the outer tolerance test sees; the intercept gradient enters through an entrywise absolute value taken before any reduction over tasks. path() carrying one model-fit buffer across grid points relies on _solve updating its Xw_init argument in place (checked against the solver's own binding); the outer tolerance is the solver's own `self.tol`, not a local rescaled by solver state; fixed-point scores are entry-wise |w_j - prox(w_j - g/L)| with the gradient pointer advanced for every group; solver __init__ stores hyper-parameters only (no shared mutable accelerator); the extrapolated pair is not modified between extrapolate() and acceptance.",
+             " Every definition of the returned stopping value inside the budget loop is one the outer tolerance test sees; the intercept gradient enters through an entrywise absolute value taken before any reduction over tasks. path() carrying one model-fit buffer across grid points relies on _solve updating its Xw_init argument in place (checked against the solver's own binding); the outer tolerance is the solver's own `self.tol`, not a local rescaled by solver state; fixed-point scores are entry-wise |w_j - prox(w_j - g/L)| with the gradient pointer advanced for every group; solver __init__ stores hyper-parameters only (no shared mutable accelerator); the extrapolated pair is not modified between extrapolate() and acceptance. Every `break` guarded by a numeric comparison sits on its TRUE side (a NaN criterion satisfies no exit test).",
         design_ref="DESIGN.md §3.1 R-ZERO/R-CERT/R-FRESH/R-ANDERSON, §4 C01",
         note="Trusted: CPython ast; positional role seeds at BaseSolver._solve; slot "
              "method names of the datafit/penalty interface. Formulas inside the score "
@@ -37,7 +37,7 @@ CLAIMS = {
              "current coefficients (negative, positive and zero coefficients; every penalty "
              "offering `derivative`), i.e. the inner problem is a tangent majoriser. Does not "
              "decide monotonicity of the numerical objective."
-             " Line searches: every in-place move that depends on the step uses the same (step - prev_step) factor for iterate and model fit, and the step is saved before it is halved; an accepted candidate that is recomputed by a matrix product is built from the candidate coefficients only. The extrapolated pair (w_acc, Xw_acc) is judged and accepted exactly as extrapolate() produced it; path() never starts a grid point from a stale model fit.",
+             " Line searches: every in-place move that depends on the step uses the same (step - prev_step) factor for iterate and model fit, and the step is saved before it is halved; an accepted candidate that is recomputed by a matrix product is built from the candidate coefficients only. The extrapolated pair (w_acc, Xw_acc) is judged and accepted exactly as extrapolate() produced it; path() never starts a grid point from a stale model fit. Line-search and acceptance exits need positive evidence (NaN-safe orientation of the tests); no per-coordinate quantity (step size) is read after the coordinate loop that defines it.",
         design_ref="DESIGN.md §3.1 R-GUARD/R-STEP/R-LS/R-REWEIGHT, §4 C03",
         note="Assumes prox exactness and validity of L_k (C07/C09). Backtracking "
              "exhaustion fallback (`else: pass`) is reported as a note.",
@@ -54,7 +54,7 @@ CLAIMS = {
              "flag reaches every prox helper and every score; the lifted block prox of every "
              "positive group penalty is non-negative on every sign region of a two-coefficient "
              "block, zero group weight included. Does not decide finiteness under overflow."
-             " generalized_support is True wherever the lifted prox moves the point (infeasible warm starts are kept in the working set); the lifted value() of positive group penalties is +inf exactly on negative coefficients, zero group weights included.",
+             " generalized_support is True wherever the lifted prox moves the point (infeasible warm starts are kept in the working set); the lifted value() of positive group penalties is +inf exactly on negative coefficients, zero group weights included. Every return of a prox method depends on `self.positive` (no shortcut for an edge value of another hyper-parameter skips the projection).",
         design_ref="DESIGN.md §3.6 R-INF/R-POS/R-WRITE, §4 C04",
         note="Order-region evaluation of the projection helpers (R-REGION) is part of the "
              "algebraic tier (C07).",
@@ -71,7 +71,7 @@ CLAIMS = {
              "in-place buffer or the template X @ w[:p] + fit_intercept * w[-1]; _glm_fit's "
              "warm start follows the same template and reads fitted state only under "
              "warm_start; no solver object is cached across calls."
-             " The pairing itself is decided as identities on a 3x3 symbolic design: epoch kernels (coordinate, group, multitask; dense and CSC) leave Xw_after - Xw_before == X @ (w_after - w_before); prox-Newton and group prox-Newton descent directions return X_delta_w == X[:, ws] @ delta_w (+ intercept move); the three line searches, on a witness where the unit step is rejected, move every coefficient, the intercept and the model fit by one common multiple of the direction. A model-fit buffer created once before a path loop is paired only with zero starts, copies of the previous column, or is recomputed on the way to solve. The tolerance compared at the outer exit is `self.tol` itself (a tolerance rescaled by the violation at the start point makes the certificate depend on the start); results returned by path() in the caller's order are un-permuted with the inverse of the sorting permutation.",
+             " The pairing itself is decided as identities on a 3x3 symbolic design: epoch kernels (coordinate, group, multitask; dense and CSC) leave Xw_after - Xw_before == X @ (w_after - w_before); prox-Newton and group prox-Newton descent directions return X_delta_w == X[:, ws] @ delta_w (+ intercept move); the three line searches, on a witness where the unit step is rejected, move every coefficient, the intercept and the model fit by one common multiple of the direction. A model-fit buffer created once before a path loop is paired only with zero starts, copies of the previous column, or is recomputed on the way to solve. The tolerance compared at the outer exit is `self.tol` itself (a tolerance rescaled by the violation at the start point makes the certificate depend on the start); results returned by path() in the caller's order are un-permuted with the inverse of the sorting permutation. A zero start inside the path loop is only paired with the carried model-fit buffer at the first grid point; a `break` that abandons the grid requires a descending grid.",
         design_ref="DESIGN.md §3.1 R-NONE/R-PAIR, §4 C05",
         note="That a warm-started run meets the certificate numerically is C01's undecided part.",
         technique="AST/CFG pattern rules with reaching definitions and effect summaries",
@@ -114,7 +114,7 @@ CLAIMS = {
              "top-k sign direction decreases the prox objective built from SLOPE.value() (necessary "
              "condition at witnesses). Weighted penalties with a zero weight stay constrained. Global optimality (beyond stationarity) of the closed "
              "forms prox_SCAD, prox_05, prox_2_3, prox_log_sum, prox_block_2_05, prox_SLOPE is "
-             "not claimed.",
+             "not claimed. Every return of a prox method depends on `self.positive`; prox_log_sum is lifted at exact ties of its regime test (empty bisection bracket: an unbound local read is a violation).",
         design_ref="DESIGN.md §3.5 R-PROXFOC, §3.6 R-PROXFOC-BLOCK, §4 C07",
         note="Witness values only select branches; hyper-parameters are assumed positive and "
              "s < gamma (admissible step range).",
@@ -161,7 +161,7 @@ CLAIMS = {
              "equalities of lifted terms; every estimator fits through the same _glm_fit as "
              "GeneralizedLinearEstimator. Limit reductions, SLOPE vs L1, Efron vs Breslow, Gram "
              "vs CD and replicated rows are not decided."
-             " Cox: without tied events the Efron terms are the Breslow terms (value, raw_grad, raw_hessian). WeightedQuadratic with integer sample weights equals Quadratic on replicated rows (value, coordinate gradients, Lipschitz constants, intercept step); WeightedGroupL2 on singleton groups equals WeightedL1 (value, prox, score; both values of positive).",
+             " Cox: without tied events the Efron terms are the Breslow terms (value, raw_grad, raw_hessian). WeightedQuadratic with integer sample weights equals Quadratic on replicated rows (value, coordinate gradients, Lipschitz constants, intercept step); WeightedGroupL2 on singleton groups equals WeightedL1 (value, prox, score; both values of positive). No np.isclose / allclose decides structure (ties) in library code.",
         design_ref="DESIGN.md §3.5 R-RED, §4 C14",
         note="Same trusted base as C06.",
         technique="substitution on lifted terms + normal-form equality",
@@ -173,7 +173,7 @@ CLAIMS = {
              "input validation converts to CSC (no other sparse format reaches a kernel); "
              "float32 flag plumbing is under C11; solver objects store no state. Equality of "
              "converged results is not decided."
-             " The dense and CSC copies of every solver kernel (coordinate / block epochs, gradient builders, prox-Newton direction and line search) and the CSC helper functions are lifted on a 3x3 design with structural zeros (and an empty column for the helpers) and must leave equal terms in coefficients, model fit and returned arrays. spectral_norm of an all-empty block returns 0, as the dense norm does. Every solver that reads X.indptr / X.indices is entered through a path that converts sparse X to CSC or refuses other formats.",
+             " The dense and CSC copies of every solver kernel (coordinate / block epochs, gradient builders, prox-Newton direction and line search) and the CSC helper functions are lifted on a 3x3 design with structural zeros (and an empty column for the helpers) and must leave equal terms in coefficients, model fit and returned arrays. spectral_norm of an all-empty block returns 0, as the dense norm does. Every solver that reads X.indptr / X.indices is entered through a path that converts sparse X to CSC or refuses other formats. Solver state (working set, iterate, model fit) is not defined or reordered under a storage test in one arm only; multitask full_grad_sparse is the stack of gradient_j_sparse.",
         design_ref="DESIGN.md §3.2 R-CSC, §4 C10",
         note="Kernel-level dense/sparse agreement of formulas is decided under C06 (datafit "
              "accessors).",
@@ -188,7 +188,7 @@ CLAIMS = {
              "float fields pass the float32 flag; every fit ends in _glm_fit/solver.solve; "
              "None-default arguments are not dereferenced unguarded; the (grp_indices, grp_ptr) "
              "pair of grp_converter reaches the group penalty and datafit unchanged. Does not decide "
-             "stationarity (C01) nor docstring formulas. Every path from solver.solve() to a return of _glm_fit refreshes the fitted attributes of the main path.",
+             "stationarity (C01) nor docstring formulas. Every path from solver.solve() to a return of _glm_fit refreshes the fitted attributes of the main path. Penalties built in fit / path receive the weights unless built under `self.weights is None`.",
         design_ref="DESIGN.md §3.3 R-PLUMB, §4 C11",
         note="Alias table (max_epochs->max_pn_iter, C->alpha) is reviewed by hand.",
         technique="data-flow of self.<param> into resolved constructor bindings",
@@ -233,7 +233,7 @@ CLAIMS = {
              "feature/group, never its position in the working set; grp_converter only applies "
              "order-preserving operations to the group specification. Equivariance of converged "
              "solutions and scaling laws are numerical and not decided."
-             " No comparison against an absolute literal threshold (0 < |c| < 1e-3) anywhere in library code. In-place reordering through an alias of the group indices (np.asarray + sort) is a violation; fixed-point scores keep the gradient pointer in step for every group order.",
+             " No comparison against an absolute literal threshold (0 < |c| < 1e-3) anywhere in library code. In-place reordering through an alias of the group indices (np.asarray + sort) is a violation; fixed-point scores keep the gradient pointer in step for every group order. No per-coordinate quantity is read after its coordinate loop (leftover of the last feature visited).",
         design_ref="DESIGN.md §2 L4, §3.4 R-IDX, §4 C15",
         note="Unknown kinds never raise alarms; only definite contradictions do.",
         technique="belief-style index-domain inference (unification of index kinds with axis "
@@ -247,7 +247,7 @@ CLAIMS = {
              "coefficient arrays occur only under the intercept flag; offset subscripts of "
              "pointer arrays (indptr[j+1], grp_ptr[g+1]) are within the loop bound. "
              "Value-dependent indices (contents of user arrays) are an input contract."
-             " Every solver kernel, fixed-point score and CSC helper is lifted on small concrete shapes (3x3 design with structural zeros / an empty column, non-contiguous groups, permuted working sets) where every subscript is bounds-checked by the lifter: an out-of-range index on those shapes is a violation. Across calls: a kernel that indexes a parameter by coordinates is never handed an array restricted to the working set; initialize / initialize_sparse is control-dependent on the storage dispatch only, so lazy attributes of earlier data are never read. Whole-array slot arguments match the per-feature attributes of accepted implementations; Anderson buffers and reshapes sized with the working-set size see the working set that was cut to that size. Arrays allocated with np.empty and filled entry by entry receive a store on every path through an iteration.",
+             " Every solver kernel, fixed-point score and CSC helper is lifted on small concrete shapes (3x3 design with structural zeros / an empty column, non-contiguous groups, permuted working sets) where every subscript is bounds-checked by the lifter: an out-of-range index on those shapes is a violation. Across calls: a kernel that indexes a parameter by coordinates is never handed an array restricted to the working set; initialize / initialize_sparse is control-dependent on the storage dispatch only, so lazy attributes of earlier data are never read. Whole-array slot arguments match the per-feature attributes of accepted implementations; Anderson buffers and reshapes sized with the working-set size see the working set that was cut to that size. Arrays allocated with np.empty and filled entry by entry receive a store on every path through an iteration. Multitask arrays (capital spelling) carry a task axis: a loop bound taken from the wrong entry of W.shape is an index-kind violation; slot methods that loop over len(w) and subscript a local with the extent of an own array attribute demand that extent from every caller.",
         design_ref="DESIGN.md §2 L4, §3.4 R-IDX/R-SLICE, §4 C20",
         note="Extents are symbols with +/-1 offsets; G <= P is never assumed.",
         technique="index-domain inference + linear offset comparison of loop bounds and "
@@ -287,7 +287,7 @@ CLAIMS = {
              "read fitted state only under warm_start; no globals/module containers; the only "
              "cache is the class factory keyed by all its parameters; compiled_clone returns "
              "a fresh instance; solver objects are immutable after construction."
-             " Validation helpers that may return their argument are not copies (stores after check_array / asarray count as stores into the caller's array, by reaching definitions); solver locals that may alias a constructor array are never updated in place, directly or in a callee; no hand-made module-level cache; the datafit is re-initialised on every solve. Lazy attributes are re-assigned by every initialisation; accessors do not write self; solver __init__ builds no shared mutable object.",
+             " Validation helpers that may return their argument are not copies (stores after check_array / asarray count as stores into the caller's array, by reaching definitions); solver locals that may alias a constructor array are never updated in place, directly or in a callee; no hand-made module-level cache; the datafit is re-initialised on every solve. Lazy attributes are re-assigned by every initialisation; accessors do not write self; solver __init__ builds no shared mutable object. Stored entries of a sparse input (X.data) are never rewritten in place by fit / _glm_fit.",
         design_ref="DESIGN.md §3.3 R-STATE/R-PURE, §4 C18",
         note="Equality of results across fit histories follows from purity plus kernel "
              "determinism; the RNG draw in spectral_norm is reported as a note.",
@@ -300,7 +300,7 @@ CLAIMS = {
              "fact (or is a tabled exemption with a reason), and that every loop is bounded "
              "(for over ranges/arrays; the two while loops have recorded variants). "
              "Finiteness under overflow is not decided."
-             " No absolute-epsilon guard; the only tabled division exemptions are per construct. spectral_norm on an all-empty block returns 0 without a 0 / 0. Zero group / zero task / zero weight: fixed-point scores with a zero-curvature group first, the multitask epoch with an identically zero task (model fit still follows the coefficients), block prox with zero weight and zero input - a divisor that is identically zero on such an input is a violation.",
+             " No absolute-epsilon guard; the only tabled division exemptions are per construct. spectral_norm on an all-empty block returns 0 without a 0 / 0. Zero group / zero task / zero weight: fixed-point scores with a zero-curvature group first, the multitask epoch with an identically zero task (model fit still follows the coefficients), block prox with zero weight and zero input - a divisor that is identically zero on such an input is a violation. Exits are NaN-safe: a criterion that overflowed is never taken for convergence or for a descent step.",
         design_ref="DESIGN.md §3.1 R-DIV/R-LOOP, §4 C19",
         note="numpy-level divisions (inf, no exception) at interpreter level are accepted "
              "unless the denominator is a Python float returned by a jitclass method.",
